@@ -2,7 +2,13 @@
 transaction layout TxnBlocks, same damage catalogue DamagedBlocks).  Trace_Jbd2 re-checks every sampled journal
 against the spec's own definitions (GroundTruthSound), so a slip here is a rejected trace, not a wrong verdict.
 
-A journal = {"cfg": {L, csum, b64, async, nb}, "jsb": {start, seq}, "nr": 1, "fs0": [v per block], "log": [...],
+Transaction identifiers ("seq" everywhere) are OFFSETS from the journal's tid base cfg["tb"] = {hi, lo} (absent: base 0), as in
+the spec: the 32-bit tid on disk is (base + seq) mod 2^32.  The base is a stratum of its own (TID_KINDS x TID_POS, the boundary
+catalogue BaseWrapU / BaseWrapS / BaseSmall of Jbd2.tla): tid 0 (unsigned wrap) or tid 0x80000000 (signed boundary) lands on
+the transaction  s_sequence + d,  d = -1 .. 9: in front of the log, on each live transaction, on the transaction the replay
+stops at, on the s_sequence the replay leaves, and on each transaction of the second life of the log.
+
+A journal = {"cfg": {L, csum, b64, async, nb [, tb]}, "jsb": {start, seq}, "nr": 1, "fs0": [v per block], "log": [...],
              "hist": [{seq, chunks, tags, rev, valid, at, len, wr, time, hassum}], "conc": {first, uuid_mode, junk_mode},
              "stratum": {...}}"""
 import random, copy
@@ -13,6 +19,21 @@ JUNK = {"t": "junk"}
 
 DAMAGE_KINDS = ["none", "partial", "ctl_junk", "ctl_stale", "ctl_wrongseq", "ctl_badcsum", "tag_badcsum", "data_junk",
                 "data_stale", "v1_badsum", "v1_descid", "oldtime_badcsum", "two_commit_badcsum", "two_mixed"]
+TID_KINDS = ["small", "u", "s"]
+TID_POS = list(range(-1, 10))       # 3 x 11 = 33 strata: co-prime with the 14 x 16 of damage kind x feature configuration
+
+
+def tid_stratum(t, seq0):
+    """Stratum number t -> (label, base as a 32-bit value) for a journal whose journal superblock announces offset seq0."""
+    kind = TID_KINDS[t % len(TID_KINDS)]
+    d = TID_POS[(t // len(TID_KINDS)) % len(TID_POS)]
+    if kind == "small":
+        b = max(0, d - 4)
+        return "small%d" % b, b
+    z = seq0 + d
+    return "%s%+d" % (kind, d), ((0 if kind == "u" else 0x80000000) - z) & 0xFFFFFFFF
+
+
 CONFIGS = [dict(csum=c, b64=b, **{"async": a}) for c in (0, 1, 2, 3) for b in (0, 1) for a in (0, 1)]
 
 
@@ -204,9 +225,9 @@ class Gen:
         return False
 
 
-def sample(rng, index):
+def sample(rng, index, tid=None):
     """Journal number `index` of the stratified stream: feature configuration x damage kind cycle deterministically,
-    everything else is drawn from rng."""
+    everything else is drawn from rng.  tid = None: tid base 0 (offsets are the tids); tid = t: stratum t of the tid base."""
     kind = DAMAGE_KINDS[index % len(DAMAGE_KINDS)]
     cfg = dict(CONFIGS[(index // len(DAMAGE_KINDS)) % len(CONFIGS)])
     # steer the configuration towards one in which the damage kind exists
@@ -249,10 +270,14 @@ def sample(rng, index):
     for h in g.hist:
         h = {k: v for k, v in h.items() if not k.startswith("_")}
         hist.append(h)
+    tidlabel = "base0"
+    if tid is not None:
+        tidlabel, b = tid_stratum(tid, g.jsb["seq"])
+        cfg["tb"] = {"hi": b >> 16, "lo": b & 0xFFFF}
     return {"cfg": cfg, "jsb": g.jsb, "nr": 1, "fs0": list(g.fs), "fs0esc": list(g.fsesc), "log": g.log, "hist": hist,
             "conc": {"first": rng.choice([1, 1, 2, 5]), "uuid_mode": rng.choice(["first", "first", "all"]),
                      "junk_mode": rng.choice(["zero", "noise"])},
-            "stratum": {"kind": kind if done else kind + "(n/a)", "csum": cfg["csum"], "b64": cfg["b64"], "async": cfg["async"]}}
+            "stratum": {"kind": kind if done else kind + "(n/a)", "csum": cfg["csum"], "b64": cfg["b64"], "async": cfg["async"], "tid": tidlabel}}
 
 
 # ------------------------------------------------------------------ second life of the log (spec/Jbd2Gen.tla)
